@@ -193,7 +193,14 @@ def dataset_stream(ex, n, exhaustive):
                 ex.res.count('exhaustive_small_histories')
                 yield D
     for _ in range(n):
-        yield respell(ex.rng, std_dataset(ex.rng))
+        D = respell(ex.rng, std_dataset(ex.rng))
+        if D.naming == 'own' and ex.rng.random() < 0.12:
+            # TaxRange labels naming a clade ABOVE the level of the group (e.g. a file exported for a subset of species):
+            # the level rule places a multi-species group by its members, whatever the label says
+            D.groups, nml = gen.mislabel(ex.rng, D.T, D.groups)
+            if nml:
+                D.meta['mislabelled'] = nml; ex.res.count('cases_with_labels_above_the_level')
+        yield D
     if getattr(ex, 'wild', False):
         # secondary stream: files that are not encodings of histories (gen.wild_dataset).  The loader and its model must
         # agree on them too (accepted / rejected with the same exception class; same hierarchy, genomes, genes), and
@@ -281,6 +288,47 @@ def explore_load(prop, tier, seed, oracle, tags, n_quick, emit=(), with_truth=Fa
             ex.fail(cid, D, bad)
         # (species-level files: the model follows the dissolving branch of the loader too -- compare the whole hierarchy)
         ex.submit(cid, D, o.tags, tags + (['forest', 'genomes'] if D.meta.get('species_level') else []), emit=emit, extra=o)
+        if prop == 'C02' and D.species and k % 5 == 0:
+            # a top-level group labelled with the single species of its members cannot be dissolved into a parent; the
+            # unchanged loader refuses the file -- should it ever load, the links of the result must still be sound
+            i_ = ex.rng.randrange(len(D.species))
+            sp_ = list(D.species); sp_[i_] = (sp_[i_][0], list(sp_[i_][1]) + [('zz1', [('protId', 'Pzz1')]), ('zz2', [('protId', 'Pzz2')])])
+            gr_ = list(D.groups) + [('og', 'SPL', None, [('prop', 'TaxRange', sp_[i_][0]), ('ref', 'zz1', None), ('ref', 'zz2', None)])]
+            try:
+                hs_ = core.load_py(D, species=sp_, groups=gr_)
+                os_ = ob.Obs(); ob.observe_load(hs_, os_)
+                b_ = list(os_.problems) + [x for x in orc.wf_problems(hs_, literal=True)]
+                if b_:
+                    ex.fail(cid + '-spl', D, ['top-level species-level group: ' + x for x in b_[:4]], species=sp_, groups=gr_)
+            except Exception:      # noqa
+                pass
+        if prop == 'C04' and D.naming == 'own' and k % 4 == 0:
+            # species_resolve_mode="OMA": a leaf declared by its code AND by the name of a clade that resolves to it has ONE
+            # genome, which lists the genes of both <species> elements
+            import re as _re4
+            for p4 in gen.paths(D.T):
+                t4 = gen.sub(D.T, p4)
+                codes4 = [i4 for i4, k4 in enumerate(t4[1]) if len(k4[0]) == 5 and _re4.match(r'[A-Z][A-Z0-9]{4}', k4[0])]
+                if not (t4[1] and len(codes4) == 1 and not t4[1][codes4[0]][1]):
+                    continue
+                leaf4 = t4[1][codes4[0]][0]
+                idx4 = [i4 for i4, (n4, _) in enumerate(D.species) if n4 == leaf4]
+                if not idx4:
+                    continue
+                sp4 = list(D.species)
+                sp4.insert(idx4[0] + (1 if ex.rng.random() < 0.5 else 0), (t4[0], [('ox1', [('protId', 'Pox1')]), ('oy1', [])]))
+                try:
+                    h4 = core.load_py(D, species=sp4, species_resolve_mode='OMA')
+                except Exception:      # noqa
+                    break
+                ex.res.count('oma_one_leaf_declared_twice')
+                want4 = sorted(g4 for n4, gs4 in sp4 if n4 in (leaf4, t4[0]) for g4, _ in gs4)
+                for g4 in h4.get_list_extant_genomes():
+                    if g4.name == leaf4 and sorted(x.unique_id for x in g4.genes) != want4:
+                        ex.fail(cid + '-oma2', D, ['OMA mode: genome %r lists %s; declared for that leaf (in two <species> elements): %s' % (leaf4, sorted(x.unique_id for x in g4.genes), want4)], species=sp4)
+                if any(x.genome.taxon.genome is not x.genome for x in h4.get_list_extant_genes()):
+                    ex.fail(cid + '-oma2', D, ['OMA mode: a gene belongs to a genome that is not the genome bound to its leaf'], species=sp4)
+                break
         if prop == 'C02' and D.naming == 'own' and D.families and k % 6 == 0:
             # species_resolve_mode="OMA": whatever a clade named as species resolves to, a loaded analysis keeps genes at leaves
             internal_ = [gen.display_name(D.T, p_, 'own') for p_ in gen.paths(D.T) if gen.sub(D.T, p_)[1]]
@@ -356,6 +404,17 @@ def explore_maps(prop, tier, seed, n_quick, mode):
         D = respell(ex.rng, std_dataset(ex.rng))
         cid = '%s-%d' % (prop, k)
         ex.note_dataset(D)
+        if ex.rng.random() < 0.2:
+            # the same files were loaded and compared before in this process (another Ham object): results of THIS analysis
+            # must be made of ITS objects
+            try:
+                h0 = core.load_py(D); p0, g0 = orc.lineage_pairs(h0)
+                for a0, d0 in p0[:8]:
+                    h0.compare_genomes_vertically(g0[a0], g0[d0])
+                h0.create_tree_profile()
+                ex.res.count('cases_loaded_and_compared_twice')
+            except Exception:      # noqa
+                pass
         h = load_or_fail(ex, cid, D)
         if h is None:
             continue
@@ -524,6 +583,13 @@ def explore_profiles(prop, tier, seed, n_quick):
                     idless0 = [x for x in subs0 if x.hog_id is None]
                     h.create_tree_profile(hog=ex.rng.choice(idless0 or subs0))
                     ex.res.count('sub_hog_profile_requested_first')
+            if ex.rng.random() < 0.3:
+                # comparisons with ancestors further up were made before the profile (they share the pair-keyed map cache)
+                fp_, fg_ = orc.lineage_pairs(h)
+                far_ = [(a_, d_) for a_, d_ in fp_ if len(d_) - len(a_) >= 2]
+                for a_, d_ in (far_ if len(far_) <= 8 else ex.rng.sample(far_, 8)):
+                    h.compare_genomes_vertically(fg_[a_], fg_[d_])
+                ex.res.count('distant_comparisons_before_the_profile', min(8, len(far_)))
             bad = orc.c09(D, h, ex.tmp) if prop == 'C09' else orc.c10(D, h)
             tp = h.create_tree_profile()
             o.put('tpfull', ob.profileS(tp.treemap))
@@ -632,10 +698,16 @@ def c11(tier, seed):
             ex.res.count('filter_' + kind)
             if f is None:
                 f = pyham.ParserFilter()
-                # integer-typed selectors where the id looks like an integer (the API accepts both)
-                f.add_hogs_via_hogId([int(x) if canon_int(x) and ex.rng.random() < 0.5 else x for x in hog_ids])
-                f.add_hogs_via_GeneIntId([int(x) if canon_int(x) and ex.rng.random() < 0.5 else x for x in int_ids])
-                f.add_hogs_via_GeneExtId(ext_ids)
+                # integer-typed selectors where the id looks like an integer (the API accepts both); the selectors are added
+                # in one call or one by one (several calls to the same method accumulate)
+                as_int = lambda xs: [int(x) if canon_int(x) and ex.rng.random() < 0.5 else x for x in xs]
+                for meth, ids_ in ((f.add_hogs_via_hogId, as_int(hog_ids)), (f.add_hogs_via_GeneIntId, as_int(int_ids)), (f.add_hogs_via_GeneExtId, list(ext_ids))):
+                    if len(ids_) >= 2 and ex.rng.random() < 0.5:
+                        for one_ in ids_:
+                            meth([one_])
+                        ex.res.count('selectors_added_one_by_one')
+                    else:
+                        meth(ids_)
                 if kind in ('hog', 'int', 'ext', 'union'):
                     next_carried = (f, list(hog_ids), list(int_ids), list(ext_ids))
             want_fams, named = selected_families(D, set(hog_ids), set(int_ids), set(ext_ids))
@@ -735,7 +807,9 @@ def c12(tier, seed):
             D = respell(ex.rng, std_dataset(ex.rng))
         cid = 'C12-%d' % k
         ex.note_dataset(D)
-        h = load_or_fail(ex, cid, D)
+        phylo12 = ex.rng.random() < 0.25          # species tree supplied as a PhyloXML file
+        ex.res.count('tree_as_phyloxml_file' if phylo12 else 'tree_as_newick_string')
+        h = load_or_fail(ex, cid, D, **(dict(phyloxml_dir=ex.tmp) if phylo12 else {}))
         if h is None:
             continue
         o = ob.Obs(); o.put('load', 'ok'); bad = []
@@ -874,6 +948,12 @@ def c19(tier, seed):
         if ex.rng.random() < 0.5:
             D.groups = gen.add_og_attrs(ex.rng, D.groups)      # `og` attributes next to (or instead of) ids
             ex.res.count('cases_with_og_attributes')
+        elif D.naming == 'synth' and not D.meta.get('nested') and all(gen.sub(D.T, p_)[0] for p_ in gen.paths(D.T)) and ex.rng.random() < 0.6:
+            # TaxRange values written with the tree's own clade names while the analysis synthesises its names: the property
+            # of a group is what the FILE says, whatever the level is called in the analysis
+            D.groups = [g_ for p_, l_, _ in D.families for g_ in gen.encode(D.T, 'own', p_, l_)]
+            D.meta['labels_own'] = True
+            ex.res.count('cases_with_labels_in_other_names')
         cid = 'C19-%d' % k
         ex.note_dataset(D)
         h = load_or_fail(ex, cid, D)
@@ -927,6 +1007,18 @@ def c19(tier, seed):
                                 bad.append('property %s of %s raised KeyError although written' % (pn, tr.key(tn)))
                     if tn.hid is not None and x.hog_id != tn.hid:
                         bad.append('group id of %s is %r, written %r' % (tr.key(tn), x.hog_id, tn.hid))
+                    if tn.scores and ex.rng.random() < 0.3:
+                        # a (shallow) copy of the HOG object carries the same annotations
+                        import copy as _copy
+                        try:
+                            x2 = _copy.copy(x)
+                            for sid_, v_ in tn.scores.items():
+                                if x2.score(sid_) != float(v_):
+                                    bad.append('copy.copy of %s: score(%s) = %r' % (tr.key(tn), sid_, x2.score(sid_)))
+                            if x2.hog_id != x.hog_id or dict(x2._properties) != dict(x._properties):
+                                bad.append('copy.copy of %s loses id / properties' % tr.key(tn))
+                        except KeyError:
+                            bad.append('copy.copy of %s: a written score raises KeyError on the copy' % tr.key(tn))
                     if tn.hid is not None:
                         r = repr(x)
                         if 'id=%s' % tn.hid not in r or 'level=%s' % nf(tn.tx) not in r:
@@ -979,7 +1071,7 @@ def c19(tier, seed):
                 bad.append('display string of gene %s raised %s' % (g.unique_id, type(e).__name__))
         if bad:
             ex.fail(cid, D, bad)
-        ex.submit(cid, D, o.tags, ['load', 'genes', 'loft'], emit=['ann'], extra=o)
+        ex.submit(cid, D, o.tags, ['load', 'genes', 'loft'], emit=['ann'], extra=o, hist=not D.meta.get('labels_own'))
     def custom(cid, D, pytags, L, o):
         out = []
         py = {x.split('|', 1)[0]: x for x in pytags.get('annall', [])}
@@ -1045,6 +1137,11 @@ def fault_variants(rng, D, limit):
                 out.append(('empty-annotated-orthologGroup', D.species, insert(D.groups, inner,
                             ('og', None, None, [('prop', 'TaxRange', rng.choice(internal)), ('score', 'bootstrap', '1.0')]))))
     out.append(('empty-orthologGroup', D.species, list(D.groups) + [('og', 'E1', None, [])]))
+    # a TOP-LEVEL group labelled with the species all its members belong to: there is no enclosing group to dissolve it into
+    if D.species:
+        i = rng.randrange(len(D.species))
+        sp = list(D.species); sp[i] = (sp[i][0], list(sp[i][1]) + [('zz1', [('protId', 'Pzz1')]), ('zz2', [('protId', 'Pzz2')])])
+        out.append(('top-level-species-level-group', sp, list(D.groups) + [('og', 'SPL', None, [('prop', 'TaxRange', sp[i][0]), ('ref', 'zz1', None), ('ref', 'zz2', None)])]))
     if len(out) > limit:
         out = rng.sample(out, limit)
     return out
@@ -1097,8 +1194,20 @@ def c20(tier, seed):
             ex.res.count('fault_' + kind)
             o = ob.Obs()
             ret = None
+            late_kw = {}
+            if kind in ('unknown-species', 'internal-as-species') and ex.rng.random() < 0.5:
+                # the faulty <species> element written after the <groups> section (its genes are then unreferenced ones)
+                bad_i = [i_ for i_, (a_, b_) in enumerate(zip(sp, D.species)) if a_[0] != b_[0]]
+                refd_ = set(orc.refs_of(gr))
+                if bad_i and not any(g_ in refd_ for g_, _ in sp[bad_i[0]][1]):
+                    sp = [x for i_, x in enumerate(sp) if i_ != bad_i[0]] + [sp[bad_i[0]]]
+                    D_style = dict(D.meta.get('style') or {}, late_species=[len(sp) - 1])
+                    late_kw = dict(style=D_style); ex.res.count('faulty_species_after_groups')
             try:
-                ret = core.load_py(D, groups=gr, species=sp)
+                if late_kw:
+                    ret = pyham.Ham(tree_file=core.nwk_of(D), hog_file=gen.orthoxml(sp, gr, **late_kw), orthoXML_as_string=True, use_internal_name=(D.naming == 'own'))
+                else:
+                    ret = core.load_py(D, groups=gr, species=sp)
                 o.put('rejected', 'no')
                 ex.fail(cid, D, ['%s accepted: an analysis object was returned' % kind], groups=gr, species=sp)
             except Exception as e:      # noqa
@@ -1146,7 +1255,15 @@ def c20(tier, seed):
             for nm_ in ex.rng.sample(internal, min(3, len(internal))):
                 sp = list(D.species); sp[i] = (nm_, sp[i][1]); variants.append(('oma-internal-as-species', sp))
             sp = list(D.species); sp[i] = ('NOSUC', sp[i][1]); variants.append(('oma-unknown-species', sp))
-        for j, (kind, sp) in enumerate(variants[:12 if tier == 'quick' else 40]):
+            # the same leaf declared twice: once by its code, once (later or earlier) by the name of a clade that resolves to it
+            for nm_ in internal:
+                if oma_resolves(D, nm_) == D.species[i][0]:
+                    extra_ = (nm_, [('ox%d' % i, [('protId', 'Pox%d' % i)]), ('oy%d' % i, [])])
+                    sp = list(D.species)
+                    sp.insert(i + 1 if ex.rng.random() < 0.5 else i, extra_)
+                    variants.append(('oma-one-leaf-declared-twice', sp)); break
+        ex.rng.shuffle(variants)
+        for j, (kind, sp) in enumerate(variants[:14 if tier == 'quick' else 40]):
             cid = 'C20-oma-%d-%d' % (k, j)
             ex.res.count('fault_' + kind)
             o = ob.Obs()
@@ -1164,6 +1281,13 @@ def c20(tier, seed):
                     want = sorted((g, oma_resolves(D, n_)) for n_, genes in sp for g, _ in genes)
                     if got != want:
                         ex.fail(cid, D, ['OMA mode: genes attached to %s, expected %s' % (got[:6], want[:6])], species=sp)
+                    # each leaf has ONE genome, and it lists exactly the genes declared for it (in whatever elements)
+                    for g_ in h.get_list_extant_genomes():
+                        mine_ = sorted(x for x, n2 in want if n2 == g_.name)
+                        if sorted(x.unique_id for x in g_.genes) != mine_ or g_.taxon.genome is not g_:
+                            ex.fail(cid, D, ['OMA mode: genome %r lists %s, declared for that leaf: %s' % (g_.name, sorted(x.unique_id for x in g_.genes), mine_)], species=sp)
+                    if any(x.genome.taxon.genome is not x.genome for x in h.get_list_extant_genes()):
+                        ex.fail(cid, D, ['OMA mode: a gene belongs to a genome that is not the genome of its leaf'], species=sp)
             except Exception as e:      # noqa
                 o.put('oma.load', 'err:' + ob.err_name(e))
                 if want_ok and kind != 'oma-unchanged':
